@@ -36,6 +36,7 @@ Absent  == -1                        \* db: nothing stored under the key
 PH      == -1                        \* cache: the not-found placeholder "*"
 NoEntry == [v |-> -9, exp |-> 0]     \* cache: key not present
 Forever == -1                        \* cache: exp of a persistent key (only the deviation KF_PersistentKey produces one)
+PendG   == -2                        \* cache: exp of an entry written in a concurrent phase through an index read (TTL observed at the end, Gap allowed)
 Gap     == 5                         \* s; sqlc: primary entry written through an index read may live this much longer
 
 VARIABLES
@@ -47,9 +48,11 @@ VARIABLES
   tainted,     \* see above
   cfg,         \* [np, ni, exp, nf]: key universe, configured expiry / not-found expiry in deciseconds
   cl,          \* cleaner bookkeeping: [up: since when the store has been up, att: key |-> failed retries since its invalidation last failed]
-  calls,       \* concurrent readers: call id |-> [k, elig]  (elig: queries that ran during the call so far)
+  calls,       \* concurrent readers: call id |-> [k, elig, abs]  (elig: queries - of any key - that ran during the call
+               \* so far; abs: the keys that had no entry when the call began)
   running,     \* key |-> id of the query running for it, 0 if none
-  qres         \* query id |-> [k, lead, done, r, v]: queries of the current concurrent phase (lead: the call that runs it)
+  qres         \* query id |-> [k, lead, done, r, v, p]: queries of the current concurrent phase (lead: the call that runs
+               \* it; p: the primary key an index query found, -1 otherwise)
 
 cvars == <<now, db, cache, down, pendingDel, tainted, cfg, cl, calls, running, qres>>
 
@@ -68,7 +71,7 @@ TTLOk(t, e, g) == t >= 1 /\ Lo(e) <= t /\ t <= Hi(e) + g
 \* an entry that does not reflect the database although nobody wrote it behind the store's back
 Stale(k) == Present(k) /\ cache[k].v # Want(k) /\ k \notin tainted
 
-Quiescent == DOMAIN calls = {} /\ \A k \in Keys : running[k] = 0 /\ (Present(k) => cache[k].exp # 0)
+Quiescent == DOMAIN calls = {} /\ \A k \in Keys : running[k] = 0 /\ (Present(k) => cache[k].exp \notin {0, PendG})
 
 Restrict(S, c) == {k \in S : c[k] # NoEntry}
 
@@ -112,52 +115,81 @@ StaleRule(S, kf) ==
     IF kf THEN bad # {} /\ bad \subseteq pendingDel ELSE bad = {}
 
 (* Take / TakeWithExpire / QueryRow on key k answered (r, v) after nq database queries.
-   flip: the harness toggled the store inside the query function.                      *)
-Take(k, r, v, nq, dbf, flip, t, kf) ==
+   flip: the harness toggled the store inside the query function.
+   cut:  the harness's fault injector made the store refuse the cut-th and every later command it received
+         during this operation (0: no outage began inside the operation; an injector that was armed but not
+         reached is reported as 0).  cut = 1: not even the fetch of the entry was answered - the operation ran
+         against a failing store.  cut >= 2: the fetch was answered and the outage began at a later command,
+         before or after the write-back was complete: the property does not say how many commands a write-back
+         takes, only that whatever it leaves in the store is the truth with a finite TTL - so both "nothing
+         written" and "written" are behaviours, and nothing else is (in particular no entry without a TTL).
+   qa:   database queries entered after the outage had begun (a failing store is reported without querying).  *)
+Take(k, r, v, nq, dbf, flip, cut, qa, t, kf) ==
   /\ Quiescent /\ k \in Keys
-  /\ LET o == DoTake(cache, down, down # flip, k, cfg.exp, dbf, t) IN
-       /\ r = o.r /\ v = o.v /\ nq = o.nq /\ o.ttlok
-       /\ flip => nq = 1
-       /\ StaleRule(IF o.hit THEN {k} ELSE {}, kf)
-       /\ cache' = o.c
-  /\ down' = (down # flip) /\ UpNote(down # flip)
+  /\ qa = 0
+  /\ cut > 0 => ~down /\ ~flip
+  /\ \E dn1 \in (IF cut = 0 THEN {down # flip} ELSE IF cut = 1 THEN {TRUE} ELSE BOOLEAN) :
+       LET o == DoTake(cache, down \/ cut = 1, dn1, k, cfg.exp, dbf, t) IN
+         /\ r = o.r /\ v = o.v /\ nq = o.nq /\ o.ttlok
+         /\ flip => nq = 1
+         /\ StaleRule(IF o.hit THEN {k} ELSE {}, kf)
+         /\ cache' = o.c
+  /\ down' = (IF cut > 0 THEN TRUE ELSE down # flip) /\ UpNote(IF cut > 0 THEN TRUE ELSE down # flip)
   /\ UNCHANGED <<now, db, pendingDel, tainted, cfg>> /\ NoConc
 
 (* QueryRowIndex on index key i: index entry -> primary key -> row.
    dbfi / dbfp: the harness makes the index / primary query fail; ti / tp: TTLs observed
-   afterwards on the index key and on the primary key involved.  The record says what the
-   caller gets, the index (qi) and primary (qp) queries run, the new content, whether the
-   inputs/TTLs are legal (ok), the keys whose entries were served (hits) and the keys whose
+   afterwards on the index key and on the primary key involved.  The operation touches the store at up to
+   three stages: (1) fetch of the index entry, (2) the primary entry (fetched if the index entry was
+   cached, written inside the index query otherwise), (3) the last write-back (primary entry after a
+   primary query, index entry after an index query); d1, d2, d3: the store refuses at that stage.
+   The record says what the caller gets, the index (qi) and primary (qp) queries run, the new content,
+   whether the inputs/TTLs are legal (ok), the keys whose entries were served (hits) and the keys whose
    entries were overwritten with the truth (wrote).                                     *)
 IdxOut(r, v, qi, qp, c, ok, hits, wrote) ==
   [r |-> r, v |-> v, qi |-> qi, qp |-> qp, c |-> c, ok |-> ok, hits |-> hits, wrote |-> wrote]
 
-DoIndex(i, dbfi, dbfp, flip, ti, tp) ==
-  IF down THEN IdxOut("cerr", 0, 0, 0, cache, ~flip, {}, {})
+IdxHitPath(i) == Present(i) /\ cache[i].v # PH
+
+DoIndex(i, dbfi, dbfp, d1, d2, d3, ti, tp) ==
+  IF d1 THEN IdxOut("cerr", 0, 0, 0, cache, TRUE, {}, {})
   ELSE IF Present(i) THEN
-    IF cache[i].v = PH THEN IdxOut("nf", 0, 0, 0, cache, ~flip, {i}, {})
+    IF cache[i].v = PH THEN IdxOut("nf", 0, 0, 0, cache, TRUE, {i}, {})
     ELSE LET p == cache[i].v
-             o == DoTake(cache, FALSE, flip, p, cfg.exp, dbfp, tp) IN
-           IdxOut(o.r, o.v, 0, o.nq, o.c, p \in PKeys /\ o.ttlok /\ (flip => o.nq = 1),
+             o == DoTake(cache, d2, d3, p, cfg.exp, dbfp, tp) IN
+           IdxOut(o.r, o.v, 0, o.nq, o.c, p \in PKeys /\ o.ttlok,
                   {i} \cup (IF o.hit THEN {p} ELSE {}), {})
   ELSE IF dbfi THEN IdxOut("dberr", 0, 1, 0, cache, TRUE, {}, {})
   ELSE IF db[i] = Absent THEN
-    IdxOut("nf", 0, 1, 0, IF flip THEN cache ELSE [cache EXCEPT ![i] = Entry(PH, ti)],
-           flip \/ TTLOk(ti, cfg.nf, 0), {}, {})
+    IdxOut("nf", 0, 1, 0, IF d2 THEN cache ELSE [cache EXCEPT ![i] = Entry(PH, ti)],
+           d2 \/ TTLOk(ti, cfg.nf, 0), {}, {})
   ELSE LET p == db[i] IN
-    IF flip THEN IdxOut("cerr", 0, 1, 0, cache, TRUE, {}, {})   \* the row cannot be cached: the store error is reported
+    IF d2 THEN IdxOut("cerr", 0, 1, 0, cache, TRUE, {}, {})   \* the row cannot be cached: the store error is reported
+    ELSE IF d3 THEN IdxOut("ok", db[p], 1, 0, [cache EXCEPT ![p] = Entry(db[p], tp)],   \* the index entry could not be written
+                           p \in PKeys /\ db[p] # Absent /\ TTLOk(tp, cfg.exp, Gap), {}, {p})
     ELSE IdxOut("ok", db[p], 1, 0, [cache EXCEPT ![p] = Entry(db[p], tp), ![i] = Entry(p, ti)],
                 p \in PKeys /\ db[p] # Absent /\ TTLOk(tp, cfg.exp, Gap) /\ TTLOk(ti, cfg.exp, 0), {}, {p})
 
-Index(i, r, v, qi, qp, dbfi, dbfp, flip, ti, tp, kf) ==
+\* the stage patterns an operation may have run under (flip: inside the first query function; cut: see Take)
+IdxPatterns(i, flip, cut) ==
+  IF cut = 0 THEN {<<down, ~down /\ flip /\ ~IdxHitPath(i), down # flip>>}
+  ELSE IF cut = 1 THEN {<<TRUE, TRUE, TRUE>>}
+  ELSE {<<FALSE, TRUE, TRUE>>, <<FALSE, FALSE, TRUE>>, <<FALSE, FALSE, FALSE>>}
+
+Index(i, r, v, qi, qp, dbfi, dbfp, flip, cut, qa, ti, tp, kf) ==
   /\ Quiescent /\ i \in Keys /\ IsIndex(i)
-  /\ LET o == DoIndex(i, dbfi, dbfp, flip, ti, tp) IN
-       /\ r = o.r /\ v = o.v /\ qi = o.qi /\ qp = o.qp /\ o.ok
-       /\ StaleRule(o.hits, kf)
-       /\ cache' = o.c
-       /\ pendingDel' = pendingDel \ o.wrote
-       /\ tainted' = tainted \ o.wrote
-  /\ down' = (down # flip) /\ UpNote(down # flip)
+  /\ qa = 0
+  /\ cut > 0 => ~down /\ ~flip
+  /\ flip => ~down
+  /\ \E pt \in IdxPatterns(i, flip, cut) :
+       LET o == DoIndex(i, dbfi, dbfp, pt[1], pt[2], pt[3], ti, tp) IN
+         /\ r = o.r /\ v = o.v /\ qi = o.qi /\ qp = o.qp /\ o.ok
+         /\ flip => qi + qp = 1                         \* the store can only be toggled inside a query
+         /\ StaleRule(o.hits, kf)
+         /\ cache' = o.c
+         /\ pendingDel' = pendingDel \ o.wrote
+         /\ tainted' = tainted \ o.wrote
+  /\ down' = (IF cut > 0 THEN TRUE ELSE down # flip) /\ UpNote(IF cut > 0 THEN TRUE ELSE down # flip)
   /\ UNCHANGED <<now, db, cfg>> /\ NoConc
 
 \* Get: the cache content, whatever the database holds (not a cached read in the sense of the property)
@@ -172,19 +204,25 @@ Get(k, r, v) ==
    A non-positive requested expiry has no TTL "derived" from it; the property only says that no
    persistent key may result: the call is either refused (nothing written) or the entry gets the
    smallest TTL (1 s) or one derived from the configured expiry.  kfp: the named deviation
-   KF_PersistentKey - the entry is written without any TTL.                                   *)
-Set(k, v, e, r, t, kfp) ==
+   KF_PersistentKey - the entry is written without any TTL.
+   cut: as for Take - the store refused the cut-th and every later command of the call: the entry is written
+   (with a legal TTL) or not at all, and the store is down afterwards.                        *)
+Set(k, v, e, r, t, kfp, cut) ==
   /\ Quiescent /\ k \in Keys
   /\ kfp => e <= 0 /\ ~down
-  /\ IF down THEN r = "cerr" /\ UNCHANGED <<cache, pendingDel, tainted>>
+  /\ cut > 0 => ~down /\ ~kfp
+  /\ IF down \/ cut = 1 THEN r = "cerr" /\ UNCHANGED <<cache, pendingDel, tainted>>
      ELSE IF e <= 0 /\ r # "ok" THEN UNCHANGED <<cache, pendingDel, tainted>>
-     ELSE /\ r = "ok"
-          /\ IF kfp THEN cache' = [cache EXCEPT ![k] = [v |-> v, exp |-> Forever]]
-             ELSE /\ IF e <= 0 THEN t = 1 \/ TTLOk(t, cfg.exp, 0) ELSE TTLOk(t, e, 0)
-                  /\ cache' = [cache EXCEPT ![k] = Entry(v, t)]
-          /\ pendingDel' = pendingDel \ {k}
-          /\ tainted' = IF v = Want(k) THEN tainted \ {k} ELSE tainted \cup {k}
-  /\ UNCHANGED <<now, db, down, cfg, cl>> /\ NoConc
+     ELSE \/ /\ cut >= 2 /\ r \in {"ok", "cerr"}        \* the outage began before the write was complete: nothing is written
+             /\ UNCHANGED <<cache, pendingDel, tainted>>
+          \/ /\ IF cut >= 2 THEN r \in {"ok", "cerr"} ELSE r = "ok"
+             /\ IF kfp THEN cache' = [cache EXCEPT ![k] = [v |-> v, exp |-> Forever]]
+                ELSE /\ IF e <= 0 THEN t = 1 \/ TTLOk(t, cfg.exp, 0) ELSE TTLOk(t, e, 0)
+                     /\ cache' = [cache EXCEPT ![k] = Entry(v, t)]
+             /\ pendingDel' = pendingDel \ {k}
+             /\ tainted' = IF v = Want(k) THEN tainted \ {k} ELSE tainted \cup {k}
+  /\ down' = (down \/ cut > 0)
+  /\ UNCHANGED <<now, db, cfg, cl>> /\ NoConc
 
 (* A database write through Exec (or harness write followed by Del / DelCache) with the
    keys ks: upd is a function from the keys whose database content changes to the new
@@ -192,30 +230,45 @@ Set(k, v, e, r, t, kfp) ==
    the write fail: the database is unchanged, and whether some of the keys are invalidated
    all the same is left open (gone: the keys whose entries disappeared).  With the store
    down the invalidation fails; the property does not say what the caller is told (r is
-   free), the keys whose entry stays behind become pendingDel.                          *)
-Write(upd, ks, dbf, r, gone) ==
+   free), the keys whose entry stays behind become pendingDel.
+   cut: the store began to refuse at the cut-th command it received during the invalidation (0: no
+   outage began inside the operation).  How the keys are spread over commands is the implementation's
+   business (one DEL for all of them on a single node, one DEL per key on a Redis cluster): any part of
+   ks may be gone - but not all of ks if the very first command was refused - and every key of ks
+   that keeps its entry is owed to the cleaner exactly as after a complete failure.                *)
+Write(upd, ks, dbf, r, gone, cut) ==
   /\ Quiescent /\ ks \subseteq Keys /\ DOMAIN upd \subseteq ks
+  /\ cut > 0 => ~down /\ ~dbf
   /\ IF dbf THEN
        /\ r = "dberr"
        /\ gone \subseteq ks /\ (down => gone = {})
        /\ cache' = [k \in Keys |-> IF k \in gone THEN NoEntry ELSE cache[k]]
        /\ pendingDel' = pendingDel \ gone
        /\ tainted' = tainted \ gone
-       /\ UNCHANGED <<db, cl>>
+       /\ UNCHANGED <<db, cl, down>>
      ELSE
        /\ db' = [k \in Keys |-> IF k \in DOMAIN upd THEN upd[k] ELSE db[k]]
-       /\ IF down THEN
+       /\ IF cut > 0 THEN
+            /\ r \in {"ok", "cerr"}
+            /\ gone \subseteq {k \in ks : Present(k)}
+            /\ cut = 1 => gone = {}
+            /\ cache' = [k \in Keys |-> IF k \in gone THEN NoEntry ELSE cache[k]]
+            /\ pendingDel' = (pendingDel \ gone) \cup {k \in ks \ gone : Present(k)}
+            /\ tainted' = tainted \ gone
+            /\ cl' = [cl EXCEPT !.att = [k \in Keys |-> IF k \in ks \ gone THEN 0 ELSE cl.att[k]]]
+            /\ down' = TRUE
+          ELSE IF down THEN
             /\ r \in {"ok", "cerr"}
             /\ pendingDel' = pendingDel \cup {k \in ks : Present(k)}
             /\ cl' = [cl EXCEPT !.att = [k \in Keys |-> IF k \in ks THEN 0 ELSE cl.att[k]]]   \* a new retry task
-            /\ UNCHANGED <<cache, tainted>>
+            /\ UNCHANGED <<cache, tainted, down>>
           ELSE
             /\ r = "ok"
             /\ cache' = [k \in Keys |-> IF k \in ks THEN NoEntry ELSE cache[k]]
             /\ pendingDel' = pendingDel \ ks
             /\ tainted' = tainted \ ks
-            /\ UNCHANGED cl
-  /\ UNCHANGED <<now, down, cfg>> /\ NoConc
+            /\ UNCHANGED <<cl, down>>
+  /\ UNCHANGED <<now, cfg>> /\ NoConc
 
 \* the cleaner retried the deletion of ks: it succeeds exactly when the store is up
 Cleaner(ks, ok) ==
@@ -253,49 +306,81 @@ Fault(dn) ==
   /\ UNCHANGED <<now, db, cache, pendingDel, tainted, cfg>> /\ NoConc
 
 (* ---------------------------------------------------------------- concurrent readers
-   No writes, clock steps or faults while calls are open.  A load = the query run by its
-   leading call plus the write-back; it is over when the leading call returns.  A reader
-   may receive the result of any load that was in progress at some moment of its call. *)
-LiveLoads(k) == {q \in DOMAIN qres : qres[q].k = k /\ qres[q].lead \in DOMAIN calls}
+   No writes, clock steps or faults while calls are open.  Calls may be on different keys, primary
+   (Take / QueryRow) or index (QueryRowIndex), and a caller may make one call after the other.
+   A load = the query run by its leading call plus the write-back; it is over when the leading call
+   returns.  A reader may receive the result of any load of its key that was in progress at some moment of
+   its call; a reader of an index key goes on to the primary key that an index load, or the cached index
+   entry, named, and receives the result of a load of that key (or its cached entry).               *)
+LiveLoads == {q \in DOMAIN qres : qres[q].lead \in DOMAIN calls}
+
+\* primary keys whose entry was written by an index load of this phase (a write that does not go through the
+\* barrier of the primary key: it can overtake a reader of that key between its fetch and its query)
+XWritten == {qres[q].p : q \in {x \in DOMAIN qres : qres[x].done /\ qres[x].p >= 0}}
 
 RStart(c, k) ==
   /\ c \notin DOMAIN calls /\ k \in Keys
   /\ calls' = [x \in DOMAIN calls \cup {c} |->
-                 IF x = c THEN [k |-> k, elig |-> LiveLoads(k)] ELSE calls[x]]
+                 IF x = c THEN [k |-> k, elig |-> LiveLoads, abs |-> {x2 \in Keys : ~Present(x2)}] ELSE calls[x]]
   /\ UNCHANGED <<now, db, cache, down, pendingDel, tainted, cfg, cl, running, qres>>
 
 \* the harness-owned query function was entered for key k, on the goroutine of call lead
 QStart(q, k, lead) ==
   /\ k \in Keys /\ q > 0 /\ q \notin DOMAIN qres
-  /\ lead \in DOMAIN calls /\ calls[lead].k = k   \* a query runs on behalf of a reader
+  /\ lead \in DOMAIN calls                \* a query runs on behalf of a reader: of that key, or of an index key
+  /\ \/ calls[lead].k = k                 \* (which goes on to a primary key)
+     \/ IsIndex(calls[lead].k) /\ ~IsIndex(k)
   /\ running[k] = 0                 \* OneQueryAtATime
   /\ ~down                          \* FailFast
-  /\ ~Present(k)                    \* ServedFromCache
+  /\ \/ ~Present(k)                 \* ServedFromCache
+     \/ k \in XWritten /\ k \in calls[lead].abs
   /\ running' = [running EXCEPT ![k] = q]
-  /\ calls' = [c \in DOMAIN calls |->
-                 IF calls[c].k = k THEN [calls[c] EXCEPT !.elig = @ \cup {q}] ELSE calls[c]]
+  /\ calls' = [c \in DOMAIN calls |-> [calls[c] EXCEPT !.elig = @ \cup {q}]]
   /\ qres' = [x \in DOMAIN qres \cup {q} |->
-                IF x = q THEN [k |-> k, lead |-> lead, done |-> FALSE, r |-> "", v |-> 0] ELSE qres[x]]
+                IF x = q THEN [k |-> k, lead |-> lead, done |-> FALSE, r |-> "", v |-> 0, p |-> -1] ELSE qres[x]]
   /\ UNCHANGED <<now, db, cache, down, pendingDel, tainted, cfg, cl>>
 
 \* ... and returns (dbf: with an error).  The write-back is part of the same load; its TTL is observed later.
+\* An index query finds the primary key and the row: both entries are written.
+Pend(k, g) == IF g \/ (Present(k) /\ cache[k].exp = PendG) THEN PendG ELSE 0
 QEnd(q, k, dbf) ==
   /\ k \in Keys /\ running[k] = q
   /\ running' = [running EXCEPT ![k] = 0]
-  /\ qres' = [qres EXCEPT ![q].done = TRUE,
-                          ![q].r = IF dbf THEN "dberr" ELSE IF db[k] = Absent THEN "nf" ELSE "ok",
-                          ![q].v = IF dbf \/ db[k] = Absent THEN 0 ELSE db[k]]
-  /\ cache' = IF dbf THEN cache ELSE [cache EXCEPT ![k] = [v |-> Want(k), exp |-> 0]]
-  /\ UNCHANGED <<now, db, down, pendingDel, tainted, cfg, cl, calls>>
+  /\ LET found == ~dbf /\ db[k] # Absent
+         viaIdx == found /\ IsIndex(k) IN
+       /\ qres' = [qres EXCEPT ![q].done = TRUE,
+                               ![q].r = IF dbf THEN "dberr" ELSE IF db[k] = Absent THEN "nf" ELSE "ok",
+                               ![q].v = IF ~found THEN 0 ELSE IF IsIndex(k) THEN db[db[k]] ELSE db[k],
+                               ![q].p = IF viaIdx THEN db[k] ELSE -1]
+       /\ viaIdx => db[k] \in PKeys /\ db[db[k]] # Absent
+       /\ cache' = IF dbf THEN cache
+                   ELSE IF viaIdx THEN [cache EXCEPT ![k] = [v |-> db[k], exp |-> Pend(k, FALSE)],
+                                                     ![db[k]] = [v |-> db[db[k]], exp |-> PendG]]
+                   ELSE [cache EXCEPT ![k] = [v |-> Want(k), exp |-> Pend(k, FALSE)]]
+       /\ pendingDel' = IF viaIdx THEN pendingDel \ {db[k]} ELSE pendingDel
+       /\ tainted' = IF viaIdx THEN tainted \ {db[k]} ELSE tainted
+  /\ UNCHANGED <<now, db, down, cfg, cl, calls>>
 
 \* SharedResult: the reader gets the result of a load that was in progress during its call, or the cached entry
+Loads(c, k) == {q \in calls[c].elig : qres[q].k = k /\ qres[q].done}
+FromCache(k, r, v) ==
+  /\ Present(k) /\ ~Stale(k)
+  /\ IF cache[k].v = PH THEN r = "nf" /\ v = 0 ELSE r = "ok" /\ v = cache[k].v
+TakeRes(c, k, r, v) == (\E q \in Loads(c, k) : qres[q].r = r /\ qres[q].v = v) \/ FromCache(k, r, v)
+\* the primary keys a reader of index key i may have been sent to
+ViaKeys(c, i) == {qres[q].p : q \in {x \in Loads(c, i) : qres[x].r = "ok"}}
+                 \cup (IF Present(i) /\ ~Stale(i) /\ cache[i].v # PH THEN {cache[i].v} ELSE {})
+IndexRes(c, i, r, v) ==
+  \/ \E q \in Loads(c, i) : qres[q].r = r /\ qres[q].v = v       \* the index load's own outcome (row, not found, error)
+  \/ Present(i) /\ ~Stale(i) /\ cache[i].v = PH /\ r = "nf" /\ v = 0
+  \/ \E p \in ViaKeys(c, i) : p \in PKeys /\ TakeRes(c, p, r, v)
+
 REnd(c, r, v) ==
   /\ c \in DOMAIN calls
   /\ LET k == calls[c].k IN
        IF down THEN r = "cerr" /\ v = 0
-       ELSE \/ \E q \in calls[c].elig : qres[q].done /\ qres[q].r = r /\ qres[q].v = v
-            \/ /\ Present(k) /\ ~Stale(k)
-               /\ IF cache[k].v = PH THEN r = "nf" /\ v = 0 ELSE r = "ok" /\ v = cache[k].v
+       ELSE IF IsIndex(k) THEN IndexRes(c, k, r, v)
+       ELSE TakeRes(c, k, r, v)
   /\ \A q \in DOMAIN qres : qres[q].lead = c => qres[q].done     \* a call does not return while its query runs
   /\ calls' = [x \in DOMAIN calls \ {c} |-> calls[x]]
   /\ UNCHANGED <<now, db, cache, down, pendingDel, tainted, cfg, cl, running, qres>>
@@ -307,12 +392,12 @@ Obs(snap) ==
   /\ \A k \in Keys :
        IF k \in DOMAIN snap
          THEN /\ Present(k) /\ cache[k].v = snap[k].v
-              /\ IF cache[k].exp = 0
-                   THEN TTLOk(snap[k].ttl, IF cache[k].v = PH THEN cfg.nf ELSE cfg.exp, 0)
+              /\ IF cache[k].exp \in {0, PendG}
+                   THEN TTLOk(snap[k].ttl, IF cache[k].v = PH THEN cfg.nf ELSE cfg.exp, IF cache[k].exp = PendG THEN Gap ELSE 0)
                    ELSE IF cache[k].exp = Forever THEN snap[k].ttl = 0
                    ELSE cache[k].exp = now + snap[k].ttl
          ELSE ~Present(k)
-  /\ cache' = [k \in Keys |-> IF Present(k) /\ cache[k].exp = 0
+  /\ cache' = [k \in Keys |-> IF Present(k) /\ cache[k].exp \in {0, PendG}
                                THEN [cache[k] EXCEPT !.exp = now + snap[k].ttl] ELSE cache[k]]
   /\ qres' = <<>>
   /\ UNCHANGED <<now, db, down, pendingDel, tainted, cfg, cl, calls, running>>
@@ -328,9 +413,9 @@ TypeOK ==
 Coherent == \A k \in Keys : Stale(k) => k \in pendingDel
 
 \* entries never outlive a finite TTL: present => its time has not come (exp = 0: being observed)
-Expiring == \A k \in Keys : Present(k) => (cache[k].exp = 0 \/ cache[k].exp > now)
+Expiring == \A k \in Keys : Present(k) => (cache[k].exp \in {0, PendG} \/ cache[k].exp > now)
 \* ... the same for the trace specification, where the deviation KF_PersistentKey may have produced a persistent key
-ExpiringOrKnown == \A k \in Keys : Present(k) => (cache[k].exp \in {0, Forever} \/ cache[k].exp > now)
+ExpiringOrKnown == \A k \in Keys : Present(k) => (cache[k].exp \in {0, PendG, Forever} \/ cache[k].exp > now)
 
 \* bookkeeping: the two premise sets only name keys that have an entry
 PremiseSetsTight == \A k \in pendingDel \cup tainted : Present(k)
